@@ -11,8 +11,8 @@ CHECKS = {
         "level_note": "Trusted: the slice model in props/c05. Ids of tasks handled by the worker are unique (UUIDs in production). Insertions relative to an absent id may be dropped or appended (the property does not fix which).",
         "assumptions": ["task ids of tasks handled by a worker are unique (as in production: UUIDs); duplicate ids are exercised on the pure list operations only"],
         "parts": [
-            {"part": "purelist", "test": "TestPureList", "quick": {"checks": 4000, "shards": 2}, "thorough": {"checks": 400000, "shards": 8}},
-            {"part": "worker", "test": "TestWorker", "quick": {"checks": 4000, "shards": 6}, "thorough": {"checks": 300000, "shards": 16, "timeout": 3000}},
+            {"part": "purelist", "test": "TestPureList", "quick": {"checks": 4000, "shards": 2}, "thorough": {"checks": 1500000, "shards": 8}},
+            {"part": "worker", "test": "TestWorker", "quick": {"checks": 4000, "shards": 6}, "thorough": {"checks": 1200000, "shards": 16, "timeout": 3000}},
         ],
     },
     "C07": {
@@ -21,8 +21,8 @@ CHECKS = {
         "level_text": "Random queue layouts; the contexts, monitor ids and queue remainder produced by both combine implementations are compared with a reference model written from the property statement. Search, not proof.",
         "level_note": "Trusted: the reference model in props/c07. The combined task is the head of the queue (as in production).",
         "parts": [
-            {"part": "combine", "test": "TestCombine", "quick": {"checks": 20000, "shards": 4}, "thorough": {"checks": 1600000, "shards": 16, "timeout": 3000}},
-            {"part": "concurrent", "test": "TestConcurrentAppend", "quick": {"checks": 8000, "shards": 4}, "thorough": {"checks": 400000, "shards": 16, "timeout": 3000}},
+            {"part": "combine", "test": "TestCombine", "quick": {"checks": 20000, "shards": 4}, "thorough": {"checks": 3000000, "shards": 16, "timeout": 3000}},
+            {"part": "concurrent", "test": "TestConcurrentAppend", "quick": {"checks": 8000, "shards": 4}, "thorough": {"checks": 1500000, "shards": 16, "timeout": 3000}},
         ],
     },
     "C08": {
@@ -31,7 +31,7 @@ CHECKS = {
         "level_text": "Random per-object histories and filters through the real informer callbacks; emitted events compared exactly with the sequence the statement prescribes; snapshots compared with latest states. Search, not proof.",
         "level_note": "Trusted: gojq for computing the projection in the oracle; single-output jq expressions only; watch events are delivered by the harness (client-go reflector not in the loop).",
         "parts": [
-            {"part": "informer", "test": "TestInformer", "quick": {"checks": 5000, "shards": 8}, "thorough": {"checks": 300000, "shards": 16, "timeout": 3000}},
+            {"part": "informer", "test": "TestInformer", "quick": {"checks": 5000, "shards": 8}, "thorough": {"checks": 1200000, "shards": 16, "timeout": 3000}},
         ],
     },
     "C15": {
@@ -41,7 +41,7 @@ CHECKS = {
         "level_text": "Random rule graphs and query sequences on the real ChainStorage; existence compared with BFS, returned chains checked for validity. Search, not proof.",
         "level_note": "Trusted: BFS reference in props/c15. 'Same version' = equal after trimming the group (one group) or equal strings (several groups, full spellings).",
         "parts": [
-            {"part": "chain", "test": "TestChain", "quick": {"checks": 6000, "shards": 4}, "thorough": {"checks": 400000, "shards": 16, "timeout": 3000}},
+            {"part": "chain", "test": "TestChain", "quick": {"checks": 6000, "shards": 4}, "thorough": {"checks": 2000000, "shards": 16, "timeout": 3000}},
             {"part": "e2e", "test": "TestConversionE2E", "quick": {"checks": 240, "shards": 16, "shrinktime": "60s", "timeout": 900}, "thorough": {"checks": 6000, "shards": 16, "timeout": 6000}},
         ],
     },
@@ -51,7 +51,7 @@ CHECKS = {
         "level_text": "Random batch histories through the real parser and MetricStorage; Gather() output compared with a reference registry after every batch; invalid batches must be rejected without effect. Search, not proof.",
         "level_note": "Trusted: reference registry in props/c16. A metric name has one type and is used either grouped or ungrouped; grouped label values are group-specific (one series never alive in two groups); empty label values equal absent labels.",
         "parts": [
-            {"part": "metrics", "test": "TestMetrics", "quick": {"checks": 4000, "shards": 8}, "thorough": {"checks": 200000, "shards": 16, "timeout": 3000}},
+            {"part": "metrics", "test": "TestMetrics", "quick": {"checks": 4000, "shards": 8}, "thorough": {"checks": 1000000, "shards": 16, "timeout": 3000}},
         ],
     },
     "C20": {
@@ -61,7 +61,7 @@ CHECKS = {
         "level_text": "Random hook directory trees loaded by the real hook.Manager.Init; discovered set, order, --config invocation log and error text compared with an independent predicate over the generated description. Search, not proof.",
         "level_note": "Trusted: the scripted hook (cmd/vhook) and its invocation log; files are sh wrappers around it; tmpfs/ext4 semantics of the sandbox file system.",
         "parts": [
-            {"part": "discovery", "test": "TestDiscovery", "quick": {"checks": 640, "shards": 16}, "thorough": {"checks": 25000, "shards": 16, "timeout": 3000}},
+            {"part": "discovery", "test": "TestDiscovery", "quick": {"checks": 640, "shards": 16}, "thorough": {"checks": 60000, "shards": 16, "timeout": 3000}},
         ],
     },
     "C06": {
@@ -82,8 +82,8 @@ CHECKS = {
         "level_text": "Random add/remove histories on the real schedule manager checked against a reference-count model by firing the registered cron entries; random hook sets with injected ticks checked for exactly one task per enabled binding. Search, not proof.",
         "level_note": "Trusted: robfig/cron fires registered entries at the right wall-clock time (not examined); entries are fired through a verif-tagged accessor.",
         "parts": [
-            {"part": "refcount", "test": "TestRefCount", "quick": {"checks": 5000, "shards": 4}, "thorough": {"checks": 200000, "shards": 16, "timeout": 3000}},
-            {"part": "ticks", "test": "TestTicks", "quick": {"checks": 480, "shards": 12}, "thorough": {"checks": 16000, "shards": 16, "timeout": 3000}},
+            {"part": "refcount", "test": "TestRefCount", "quick": {"checks": 5000, "shards": 4}, "thorough": {"checks": 1000000, "shards": 16, "timeout": 3000}},
+            {"part": "ticks", "test": "TestTicks", "quick": {"checks": 480, "shards": 12}, "thorough": {"checks": 60000, "shards": 16, "timeout": 3000}},
         ],
     },
     "C03": {
@@ -114,7 +114,7 @@ CHECKS = {
         "level_text": "Random (interval, burst) settings through the real config loader and limiter constructor, sliding-window bound checked on synthetic time for generated arrival patterns. Search, not proof.",
         "level_note": "Trusted: golang.org/x/time/rate honours ReserveN with caller-supplied time the same way Wait does with real time.",
         "parts": [
-            {"part": "limiter", "test": "TestLimiter", "quick": {"checks": 5000, "shards": 4}, "thorough": {"checks": 400000, "shards": 16, "timeout": 3000}},
+            {"part": "limiter", "test": "TestLimiter", "quick": {"checks": 5000, "shards": 4}, "thorough": {"checks": 2000000, "shards": 16, "timeout": 3000}},
             {"part": "e2e", "test": "TestE2E", "quick": {"checks": 64, "shards": 16, "shrinktime": "30s", "timeout": 900}, "thorough": {"checks": 1200, "shards": 16, "timeout": 6000}, "owned_schedule": False},
         ],
     },
@@ -203,7 +203,7 @@ CHECKS = {
         "level_note": "Trusted: as C01; reference cache model in internal/ksched.",
         "parts": [
             {"part": "sched", "test": "TestSched", "quick": {"checks": 4000, "shards": 8}, "thorough": {"checks": 300000, "shards": 16, "timeout": 3000}},
-            {"part": "updatesnapshots", "test": "TestUpdateSnapshots", "quick": {"checks": 3000, "shards": 8}, "thorough": {"checks": 200000, "shards": 16, "timeout": 3000}},
+            {"part": "updatesnapshots", "test": "TestUpdateSnapshots", "quick": {"checks": 3000, "shards": 8}, "thorough": {"checks": 800000, "shards": 16, "timeout": 3000}},
             {"part": "e2e", "test": "TestE2E", "quick": {"checks": 240, "shards": 16, "shrinktime": "90s", "timeout": 900}, "thorough": {"checks": 5000, "shards": 16, "shrinktime": "180s", "timeout": 6000}, "owned_schedule": False},
         ],
     },
